@@ -72,7 +72,7 @@ def run_impl(prop, case):
     from bigtree.tree.helper import get_tree_diff
 
     a = _build(case["t1"], case["sep"])
-    b = _build(case["t2"], case["sep"])
+    b = _build(case["t2"], case.get("sep2", case["sep"]))
     try:
         r = get_tree_diff(a, b, only_diff=case["only_diff"], attr_list=list(case["attrs"]))
     except Exception as e:  # noqa
@@ -125,7 +125,7 @@ def _cobs(obs):
 
 
 def emit(prop, case, obs):
-    return (f"DC {cstr(case['sep'])} {_ctree(case['t1'])} {_ctree(case['t2'])} {cbool(case['only_diff'])} "
+    return (f"DC {cstr(case['sep'])} {cstr(case.get('sep2', case['sep']))} {_ctree(case['t1'])} {_ctree(case['t2'])} {cbool(case['only_diff'])} "
             f"{clist(cstr(a) for a in case['attrs'])} {_cobs(obs)}")
 
 
@@ -142,6 +142,7 @@ NAME_POOLS = {
 ATTR_POOL = ["x", "y", "z"]
 VALUES = [0, 1, 2, -1, "s", "t", "1", "", None]
 SHAPES = ["wide", "deep", "mixed", "path", "star"]
+SEPS2 = ["-", ".", "|", "\\"]
 
 
 def _nodes(t):
@@ -245,6 +246,11 @@ def edit_tree(rng, t, pool, density, nedits):
 def gen_case(rng, pool_name=None, shape=None):
     pool_name = pool_name or rng.choice(["distinct", "repeated", "affix", "affix", "special", "special", "lookalike"])
     pool = NAME_POOLS[pool_name]
+    # the second tree's own separator; names of both trees then also contain that character
+    sep2 = rng.choice(SEPS2) if rng.random() < 0.45 else "/"
+    if sep2 != "/":
+        extra = [f"a{sep2}b", f"b{sep2}", f"{sep2}c", sep2, f"v1{sep2}st{sep2}x", "b"]
+        pool = extra + pool[: max(2, len(pool) // 2)] if rng.random() < 0.8 else pool + extra[:2]
     shape = shape or rng.choice(SHAPES)
     density = rng.choice([0.0, 0.4, 0.8])
     n = rng.randint(1, 9)
@@ -267,8 +273,8 @@ def gen_case(rng, pool_name=None, shape=None):
         al = rng.sample(ATTR_POOL, k)
     if rng.random() < 0.15:
         t1, t2 = t2, t1
-    return {"sep": "/", "t1": t1, "t2": t2, "only_diff": rng.random() < 0.55, "attrs": al,
-            "stratum": f"{pool_name}/{shape}"}
+    return {"sep": "/", "sep2": sep2, "t1": t1, "t2": t2, "only_diff": rng.random() < 0.55, "attrs": al,
+            "stratum": f"{pool_name}/{shape}" + ("" if sep2 == "/" else "/sep2")}
 
 
 def _leaf(n, **at):
@@ -278,8 +284,19 @@ def _leaf(n, **at):
 def corpus(prop):
     out = []
 
-    def add(label, t1, t2, od=True, al=(), sep="/"):
-        out.append((label, {"sep": sep, "t1": t1, "t2": t2, "only_diff": od, "attrs": list(al), "stratum": "corpus"}))
+    def add(label, t1, t2, od=True, al=(), sep="/", sep2=None):
+        out.append((label, {"sep": sep, "sep2": sep2 or sep, "t1": t1, "t2": t2, "only_diff": od, "attrs": list(al),
+                            "stratum": "corpus"}))
+
+    # the second tree uses another separator and names contain that character
+    rel = ["releases", {}, [["v1-stable", {}, [_leaf("notes.txt"), _leaf("build-2024-01")]], _leaf("v2")]]
+    rel3 = copy.deepcopy(rel)
+    rel3[2].append(_leaf("v3"))
+    for od in (True, False):
+        add("other-sep", rel, copy.deepcopy(rel), od, [], "/", "-")
+        add("other-sep", rel, rel3, od, [], "/", "-")
+        add("other-sep", rel, rel3, od, [], "/", ".")
+        add("other-sep", ["r", {}, [_leaf("a|b", x=1), _leaf("|")]], ["r", {}, [_leaf("a|b", x=2), _leaf("|")]], od, ["x"], "/", "|")
 
     # the three pre-F6 behaviours
     for od in (True, False):
@@ -334,7 +351,7 @@ def generate(prop, rng, tier):
         for t1 in small:
             for t2 in small:
                 for od in (True, False):
-                    yield "exhaustive/b-bc", {"sep": "/", "t1": t1, "t2": t2, "only_diff": od, "attrs": [], "stratum": "exhaustive"}
+                    yield "exhaustive/b-bc", {"sep": "/", "sep2": "/", "t1": t1, "t2": t2, "only_diff": od, "attrs": [], "stratum": "exhaustive"}
 
 
 def _small_trees(names):
@@ -441,7 +458,7 @@ def nontrivial(prop, case, obs):
 
 
 def sample(prop, case, obs):
-    return {"sep": case["sep"], "tree": case["t1"], "other_tree": case["t2"], "only_diff": case["only_diff"],
+    return {"sep": case["sep"], "other_sep": case.get("sep2", case["sep"]), "tree": case["t1"], "other_tree": case["t2"], "only_diff": case["only_diff"],
             "attr_list": case["attrs"], "observed": obs}
 
 
@@ -449,7 +466,8 @@ def rule(prop):
     return ("pairs (tree, edited copy): random trees (<= 10 nodes; shapes wide/deep/mixed/path/star; name pools distinct / "
             "repeated / prefix-suffix related (b, bc, xa, ab) / special characters (. ( + ) [ * ? \\ space) / marker look-alikes) "
             "edited by deleting, adding, renaming, moving subtrees and changing attributes (ints, strings, None); "
-            "attr_list of 0-2 of 3 attributes, only_diff on/off, sep '/'; observation = multiset of (path_name, attribute pairs) of the "
+            "attr_list of 0-2 of 3 attributes, only_diff on/off, tree.sep '/', other_tree.sep '/' or (45%) one of - . | \\ with names "
+            "of both trees containing that character; observation = multiset of (path_name, attribute pairs) of the "
             "returned tree, None, or the exception class; non-trivial = a tree with >= 3 nodes of which at least one is marked")
 
 
